@@ -152,6 +152,7 @@ def check(tier: str) -> Result:
     n_wo = move_rules.write_order_obligations(res, tree, "C09.R10")
     n_re = move_rules.reencoding_obligations(res, tree, "C09.R11")
     lbf_rules.occupancy_obligations(res, tree, "C09.R3")
+    move_rules.negative_sentinel_obligations(res, tree, "C09.R12")
     res.analysed = {"table_pairings": n, "axis_typed_sites": n_axis, "mask_vs_step_validity": n_b}
     res.assumptions = ["direction names in the code carry their usual meaning (up = previous row, left = previous column)",
                        "PacMan is excluded from the naming convention (its x/y naming is transposed); only sibling agreement is checked there"]
